@@ -219,6 +219,30 @@ def linked_mixed_only(spec, assigns) -> bool:
     return bool(assigns) and all(linked_partial_only(spec, [a]) or linked_full_nonzero_only(spec, [a]) for a in assigns)
 
 
+def norepl_unreduced_all_permanent(dsg):
+    """State probe on an initialised design space graph: is there an UNORDERED_NOREPL constraint all of whose choices
+    are permanent NOW (active from the start nodes) while its option lists were NOT pre-reduced (the first choice
+    still offers its last option)?  The library pre-reduces the option lists only if all choices are permanent when
+    the constraint is declared; the complete encoder decides "all permanent" again when it analyses the graph and then
+    applies the index rule for pre-reduced lists.  The two disagree when a later constraint (or anything else resolved
+    at initialisation) makes a member permanent afterwards."""
+    try:
+        from adsg_core.graph.choice_constraints import ChoiceConstraintType
+        from adsg_core.graph.traversal import traverse_until_choice_nodes
+        _, init_choices = traverse_until_choice_nodes(dsg.graph, dsg.derivation_start_permanent_nodes)
+        init_choices = set(init_choices)
+        for con in dsg.get_choice_constraints():
+            if con.type != ChoiceConstraintType.UNORDERED_NOREPL or con.options is None or len(con.nodes) < 2:
+                continue
+            if not all(n in dsg.graph.nodes and n in init_choices for n in con.nodes):
+                continue
+            if con.options[0] and con.options[0][-1] in dsg.get_option_nodes(con.nodes[0]):
+                return True
+    except Exception:  # noqa
+        return None
+    return False
+
+
 def linked_forced_is_first(gp) -> bool:
     """State probe: is the FIRST choice (in the processor's own choice order) of some LINKED constraint marked forced,
     i.e. left without a design variable?  The library keeps the variable on the first one; the known fast-encoder
